@@ -506,6 +506,7 @@ type mrec struct {
 	sendOK  [][]int    // per thread, per call: -1 not finished, 0 false, 1 true
 	recvV   [][]int    // per thread, per call
 	recvOK  [][]int
+	closed  bool // a "CL" step closed the channel
 }
 
 // multiScenario: every thread runs a program of helper calls one after the other on ONE channel;
@@ -580,6 +581,12 @@ func multiScenarioZ(progs [][]string, capN, prefill, bound int, zero bool) schk.
 						case "RC":
 							got, ok := chans.RecvContext(ctx, (<-chan int)(r.ch))
 							r.recvV[t][j], r.recvOK[t][j] = got, b2i(ok)
+						case "PR": // a plain receive by a rival consumer
+							got, ok := vrt.Recv2(r.ch)
+							r.recvV[t][j], r.recvOK[t][j] = got, b2i(ok)
+						case "CL": // the channel is closed (no sender is part of such a scenario)
+							vrt.Close(r.ch)
+							r.closed = true
 						}
 					}
 					r.cur[t] = len(progs[t])
@@ -630,6 +637,9 @@ func multiScenarioZ(progs [][]string, capN, prefill, bound int, zero bool) schk.
 				lastPre := 0
 				for j, c := range prog {
 					v := valOf(t, j)
+					if c[:2] == "CL" {
+						continue
+					}
 					if c[0] == 'S' {
 						known[v] = true
 						n := count(v)
@@ -664,7 +674,7 @@ func multiScenarioZ(progs [][]string, capN, prefill, bound int, zero bool) schk.
 						if r.recvV[t][j] != 0 {
 							return schk.Failf("recv-false-with-value", "thread %d call %d (%s) returned (%d,false): %s", t, j, c, r.recvV[t][j], out), ""
 						}
-						if !timedOf(c) {
+						if !timedOf(c) && !r.closed {
 							return schk.Failf("gave-up-without-limit", "thread %d call %d (%s) returned false without a limit on an open channel: %s", t, j, c, out), ""
 						}
 					}
@@ -861,6 +871,15 @@ func main() {
 		for capN := 0; capN <= 1; capN++ {
 			scs = append(scs, multiScenarioZ([][]string{{pair[0]}, {pair[1]}}, capN, 0, -1, true))
 			scs = append(scs, multiScenarioZ([][]string{{pair[0], pair[0]}, {pair[1], pair[1]}}, capN, 0, ev.Pick(r, 3, -1), true))
+		}
+	}
+	// a receiving helper, a rival plain receiver and a closer on a channel that holds queued values
+	for _, h := range []string{"RT+", "RT-", "RC+", "RC-"} {
+		for capN := 1; capN <= 2; capN++ {
+			for pre := 1; pre <= capN; pre++ {
+				scs = append(scs, multiScenario([][]string{{h}, {"PR-"}, {"CL-"}}, capN, pre, -1))
+				scs = append(scs, multiScenario([][]string{{h, h}, {"PR-"}, {"CL-"}}, capN, pre, ev.Pick(r, 3, -1)))
+			}
 		}
 	}
 	for _, tri := range [][]string{{"ST+", "ST+", "RT+"}, {"SC+", "ST-", "RC+"}, {"RT+", "RC+", "ST+"}, {"RT-", "RT+", "SC+"}, {"ST+", "SC+", "RC-"}} {
